@@ -18,6 +18,7 @@ EXTENDS Rat, Sequences, FiniteSets
 CONSTANTS Vals,        \* finite integer values a feature may take
           MaxLen,      \* bound on Len(data)
           MaxBlock,    \* bound on the block written by one call
+          CopyKinds,   \* which copying tools are explored
           CountValid   \* repaired running mean
 
 NaN == 99
@@ -125,7 +126,7 @@ Copy(kind) == /\ data # <<>>
 
 Next == \/ \E b \in Blocks : AppendBlock(b) \/ ReplaceBlock(b)
         \/ Reopen \/ StripAttrs
-        \/ \E k \in {"compress", "repack", "condense", "export"} : Copy(k)
+        \/ \E k \in CopyKinds : Copy(k)
 
 Spec == Init /\ [][Next]_svars
 =============================================================================
